@@ -46,7 +46,7 @@ NSPredicted(c, a) ==
     LET k == Len(a.nodes)
         ies == [i \in DOMAIN a.edges |-> <<IndexOf(a, a.edges[i][1]), IndexOf(a, a.edges[i][2])>>]
         thor == IF c.thor < 0 THEN 28 ELSE c.thor
-    IN RunNS([p |-> ies, inl |-> a.inl, outl |-> a.outl], k, thor * ISqrtFloor(k))
+    IN RunNS([p |-> ies, w |-> [i \in DOMAIN ies |-> 1], d |-> [i \in DOMAIN ies |-> 1], inl |-> a.inl, outl |-> a.outl], k, thor * ISqrtFloor(k))
 NSDrift(c, a, s) ==
     IF ~NSApplies(c, a, s) THEN {}
     ELSE LET st == NSPredicted(c, a) IN
